@@ -299,6 +299,7 @@ func (g *c08Gen) Next(w *World, n int) *Step {
 type c09Oracle struct {
 	last  map[int]time.Time // browser -> last activity of its authenticated session
 	kinds map[int]string    // browser -> step kind that logged it in
+	wasOn bool              // the expire module was deployed at the previous request
 }
 
 func newC09Oracle(w *World) Oracle {
@@ -314,8 +315,19 @@ func (c *c09Oracle) Check(w *World, o *Obs) []Violation {
 		}
 		return nil
 	}
-	if !w.Cfg.hasSetup("expire") {
+	if !w.expireOn {
+		// the expire module is not deployed yet (Config.ExpireLate)
+		c.wasOn = false
 		return nil
+	}
+	if !c.wasOn {
+		// deployed just now: no session carries an activity stamp, so nothing
+		// is known about its idle time until it is seen once
+		c.wasOn = true
+		if w.Cfg.ExpireLate {
+			c.last = map[int]time.Time{}
+			w.Stats.Reach["c09_expire_deployed_late"]++
+		}
 	}
 	E := w.Cfg.ExpireAfter
 	wl := map[string]bool{}
@@ -409,12 +421,21 @@ func (c *c09Oracle) Check(w *World, o *Obs) []Violation {
 			w.Stats.Reach["c09_login_"+st.Kind]++
 		} else {
 			// the deadline moves only if the response actually delivered
-			// session state (a silently failed request delivers nothing)
+			// session state (a silently failed request delivers nothing) -
+			// or if the request was visibly served as authenticated: "a
+			// request arriving sooner is served as authenticated and pushes
+			// the deadline forward"
 			for _, wr := range o.Writes {
 				if wr.Kind == "session" {
 					c.last[st.B] = o.Now
 					break
 				}
+			}
+			if st.Kind == "probe" && o.Probe != nil && o.Probe.Ran && o.Probe.UserID == uid && o.Status == 200 {
+				if _, known := c.last[st.B]; !known {
+					w.Stats.Reach["c09_unstamped_session_seen"]++
+				}
+				c.last[st.B] = o.Now
 			}
 		}
 	} else {
